@@ -91,12 +91,41 @@ fn load_uncached(v: &VehicleCfg, model: &str, rate_unit: EnergyRateUnit) -> Resu
     load_prediction_model(v.name.clone(), &model.to_string(), model_type, SpeedUnit::MilesPerHour, GradeUnit::Decimal, rate_unit, None, v.adjustment, None).map_err(|e| e.to_string())
 }
 
-/// the uncached model's energy for one edge, in (value, unit). `speed_kph` is the speed the energy
-/// model is specified to use: edge length over the time-model's time for the edge.
-fn predict(rec: &PredictionModelRecord, w: &World, edge: usize, speed_kph: f64) -> Result<(f64, EnergyUnit), String> {
-    let dist_miles = DistanceUnit::Meters.convert(&Distance::new(w.edges[edge].2), &DistanceUnit::Miles);
-    rec.predict((Speed::new(speed_kph), SpeedUnit::KilometersPerHour), (Grade::new(w.grades[edge]), GradeUnit::Decimal), (dist_miles, DistanceUnit::Miles))
-        .map(|(e, u)| (e.as_f64(), u))
+fn unit<T: serde::de::DeserializeOwned>(name: &str) -> T {
+    serde_json::from_value(json!(name)).expect("a unit name the generator wrote")
+}
+
+/// the unit configuration of an energy world
+struct Units {
+    speed: SpeedUnit,
+    grade: GradeUnit,
+    grade_factor: f64,
+    energy_distance: DistanceUnit,
+}
+fn units_of(w: &World) -> Units {
+    match &w.traversal {
+        Traversal::Energy { speed_unit, grade_unit, distance_unit, .. } => Units {
+            speed: unit(speed_unit),
+            grade: unit(grade_unit),
+            grade_factor: match grade_unit.as_str() {
+                "percent" => 100.0,
+                "millis" => 1000.0,
+                _ => 1.0,
+            },
+            energy_distance: unit(distance_unit.as_deref().unwrap_or("miles")),
+        },
+        _ => Units { speed: SpeedUnit::KilometersPerHour, grade: GradeUnit::Decimal, grade_factor: 1.0, energy_distance: DistanceUnit::Miles },
+    }
+}
+
+/// the uncached model's energy for one edge, in (value, unit), called the way the energy model is
+/// specified to call it: speed = edge length over the time model's time for the edge, in the speed
+/// table's unit; grade as the grade table holds it; length in the energy model's distance unit.
+fn predict(rec: &PredictionModelRecord, w: &World, u: &Units, edge: usize, speed: f64) -> Result<(f64, EnergyUnit), String> {
+    let dist = DistanceUnit::Meters.convert(&Distance::new(w.edges[edge].2), &u.energy_distance);
+    let grade_in_table = crate::world::q9(w.grades[edge] * u.grade_factor);
+    rec.predict((Speed::new(speed), u.speed), (Grade::new(grade_in_table), u.grade), (dist, u.energy_distance))
+        .map(|(e, un)| (e.as_f64(), un))
         .map_err(|e| e.to_string())
 }
 
@@ -117,6 +146,7 @@ fn judge(case: &Case, obs: &Obs) -> (Vec<Violation>, BTreeMap<String, u64>, bool
         v.push(Violation { class: super::c12::panic_class(p), detail: format!("panic: {} at {}", p.message, p.location) });
     }
     let w = &case.world;
+    let units = units_of(w);
     let vehicles = match &w.traversal {
         Traversal::Energy { vehicles, .. } => vehicles.clone(),
         _ => vec![],
@@ -215,9 +245,10 @@ fn judge(case: &Case, obs: &Obs) -> (Vec<Violation>, BTreeMap<String, u64>, bool
                     break;
                 }
                 if let (Some(di), Some(ti)) = (idx("distance"), idx("time")) {
-                    let want = DistanceUnit::Meters.convert(&Distance::new(w.edges[e].2), &DistanceUnit::Miles).as_f64();
+                    let state_du: DistanceUnit = unit(sm["distance"]["distance_unit"].as_str().unwrap_or("miles"));
+                    let want = DistanceUnit::Meters.convert(&Distance::new(w.edges[e].2), &state_du).as_f64();
                     if !rel_close(st[di] - p0[di], want, 1e-6) || st[ti] < p0[ti] {
-                        broken = Some(format!("{} edge {}: distance went {} -> {} (edge length {} mi), time {} -> {}", name, e, p0[di], st[di], want, p0[ti], st[ti]));
+                        broken = Some(format!("{} edge {}: distance went {} -> {} (edge length {} in the state's unit), time {} -> {}", name, e, p0[di], st[di], want, p0[ti], st[ti]));
                         break;
                     }
                 }
@@ -238,17 +269,19 @@ fn judge(case: &Case, obs: &Obs) -> (Vec<Violation>, BTreeMap<String, u64>, bool
                 break;
             }
             bump("edges_checked", 1);
-            // "speed = length / time delta of the wrapped time model", in the time model's own units
+            // "speed = length / time delta of the wrapped time model", computed as the energy model is specified
+            // to: the state's time converted to the speed unit's time unit, the edge length to its distance unit
             let speed = match idx("time") {
                 Some(ti) => {
                     use routee_compass_core::model::unit::{Time, TimeUnit};
-                    let t0 = TimeUnit::Minutes.convert(&Time::new(prev[ti]), &TimeUnit::Hours);
-                    let t1 = TimeUnit::Minutes.convert(&Time::new(st[ti]), &TimeUnit::Hours);
-                    let km = DistanceUnit::Meters.convert(&Distance::new(w.edges[e].2), &DistanceUnit::Kilometers);
-                    let s = Speed::from((km, t1 - t0)).as_f64();
+                    let state_tu: TimeUnit = unit(sm["time"]["time_unit"].as_str().unwrap_or("minutes"));
+                    let t0 = state_tu.convert(&Time::new(prev[ti]), &units.speed.associated_time_unit());
+                    let t1 = state_tu.convert(&Time::new(st[ti]), &units.speed.associated_time_unit());
+                    let d = DistanceUnit::Meters.convert(&Distance::new(w.edges[e].2), &units.speed.associated_distance_unit());
+                    let s = Speed::from((d, t1 - t0)).as_f64();
                     // and that speed must be the table speed up to the rounding of the conversion constants
                     if !rel_close(s, w.speeds[e], 2e-3) {
-                        v.push(Violation { class: "edge-speed".into(), detail: format!("{} edge {}: length/time gives {} km/h but the speed table says {}", name, e, s, w.speeds[e]) });
+                        v.push(Violation { class: "edge-speed".into(), detail: format!("{} edge {}: length/time gives {} but the speed table says {} ({:?})", name, e, s, w.speeds[e], units.speed) });
                     }
                     s
                 }
@@ -262,14 +295,14 @@ fn judge(case: &Case, obs: &Obs) -> (Vec<Violation>, BTreeMap<String, u64>, bool
             let soc_now = idx("battery_state").map(|i| st[i]);
             match vc.kind.as_str() {
                 "ice" => {
-                    let (want, _) = predict(rec_a, w, e, speed).unwrap_or((f64::NAN, EnergyUnit::GallonsGasoline));
+                    let (want, _) = predict(rec_a, w, &units, e, speed).unwrap_or((f64::NAN, EnergyUnit::GallonsGasoline));
                     let got = d("energy_liquid").unwrap_or(f64::NAN);
                     if !close_gal(got, want) {
                         v.push(Violation { class: "edge-energy".into(), detail: format!("{} edge {}: recorded liquid energy {} but the model gives {} (speed {} grade {} length {})", name, e, got, want, w.speeds[e], w.grades[e], w.edges[e].2) });
                     }
                 }
                 "bev" => {
-                    let (want, _) = predict(rec_a, w, e, speed).unwrap_or((f64::NAN, EnergyUnit::KilowattHours));
+                    let (want, _) = predict(rec_a, w, &units, e, speed).unwrap_or((f64::NAN, EnergyUnit::KilowattHours));
                     let got = d("energy_electric").unwrap_or(f64::NAN);
                     if !close_abs(got, want) {
                         v.push(Violation { class: "edge-energy".into(), detail: format!("{} edge {}: recorded electric energy {} but the model gives {} (speed {} grade {} length {})", name, e, got, want, w.speeds[e], w.grades[e], w.edges[e].2) });
@@ -291,7 +324,7 @@ fn judge(case: &Case, obs: &Obs) -> (Vec<Violation>, BTreeMap<String, u64>, bool
                                 v.push(Violation { class: "phev-switch".into(), detail: format!("{} edge {}: entered with {}% charge but drew only liquid fuel ({})", name, e, entry, dl) });
                             }
                         } else {
-                            let (want, _) = predict(rec_a, w, e, speed).unwrap_or((f64::NAN, EnergyUnit::KilowattHours));
+                            let (want, _) = predict(rec_a, w, &units, e, speed).unwrap_or((f64::NAN, EnergyUnit::KilowattHours));
                             let full_soc_use = want / cap * 100.0;
                             if full_soc_use <= entry && !close_abs(de, want) {
                                 v.push(Violation { class: "edge-energy".into(), detail: format!("{} edge {}: recorded electric energy {} but the charge-depleting model gives {}", name, e, de, want) });
@@ -303,7 +336,7 @@ fn judge(case: &Case, obs: &Obs) -> (Vec<Violation>, BTreeMap<String, u64>, bool
                             v.push(Violation { class: "phev-switch".into(), detail: format!("{} edge {}: entered empty but drew electricity ({})", name, e, de) });
                         }
                         if let Some(s) = rec_b {
-                            let (want, _) = predict(s, w, e, speed).unwrap_or((f64::NAN, EnergyUnit::GallonsGasoline));
+                            let (want, _) = predict(s, w, &units, e, speed).unwrap_or((f64::NAN, EnergyUnit::GallonsGasoline));
                             if !close_gal(dl, want) {
                                 v.push(Violation { class: "edge-energy".into(), detail: format!("{} edge {}: recorded liquid energy {} but the charge-sustaining model gives {}", name, e, dl, want) });
                             }
